@@ -2655,6 +2655,17 @@ M('C16', 'lt-by-type', PGP, "    def __lt__(self, other):\n        return self.c
 T('C16', 'twin-insort-insert', TY, "        i = bisect.bisect_left(self, item)\n        self.rotate(- i)\n        self.appendleft(item)\n        self.rotate(i)", "        position = bisect.bisect_left(self, item)\n        self.insert(position, item)")
 M('C16', 'insort-appends', TY, "        i = bisect.bisect_left(self, item)\n        self.rotate(- i)\n        self.appendleft(item)\n        self.rotate(i)", "        self.append(item)", 'C16.5')
 M('C16', 'insort-rotate-back-missing', TY, "        self.appendleft(item)\n        self.rotate(i)", "        self.appendleft(item)", 'C16.5')
+# --- insort evaluated on concrete collections: fast paths that are identities stay silent, wrong ones are reported
+_C16_INS = "        i = bisect.bisect_left(self, item)\n        self.rotate(- i)\n        self.appendleft(item)\n        self.rotate(i)"
+_C16_FAST = "        i = bisect.bisect_left(self, item)\n        if self.maxlen is None:\n            if i == 0:\n                self.appendleft(item)\n                return\n\n            if i == len(self):\n                self.append(item)\n                return\n\n        self.rotate(- i)\n        self.appendleft(item)\n        self.rotate(i)"
+T('C16', 'twin-insort-fast-paths-unbounded', TY, _C16_INS, _C16_FAST)
+T('C16', 'twin-insort-append-when-newest', TY, _C16_INS, "        if not self or self[-1] < item:\n            # strictly newer than everything held: it goes last\n            self.append(item)\n            return\n" + _C16_INS)
+M('C16', 'insort-fast-append-on-tie', TY, _C16_INS, "        if self.maxlen is None and self and not item < self[-1]:\n            # already in order: the new item goes last\n            self.append(item)\n            return\n" + _C16_INS, 'C16.5')
+T('C16', 'twin-insort-fast-paths-any-deque', TY, _C16_INS, _C16_FAST.replace("        if self.maxlen is None:\n", "        if True:\n"))
+M('C16', 'insort-bisect-right', TY, _C16_INS, _C16_INS.replace('bisect_left', 'bisect_right'), 'C16.5')
+M('C16', 'insort-fast-appendleft-off-by-one', TY, _C16_INS, _C16_FAST.replace("if i == 0:", "if i <= 1:"), 'C16.5')
+M('C16', 'insort-rotation-sign', TY, _C16_INS, "        i = bisect.bisect_left(self, item)\n        self.rotate(i)\n        self.appendleft(item)\n        self.rotate(- i)", 'C16.5')
+M('C16', 'insort-fast-append-skips-last-check', TY, _C16_INS, _C16_FAST.replace("if i == len(self):", "if i >= len(self) - 1:"), 'C16.5')
 # predicates
 T('C16', 'twin-s2k-bool-tuple', FL, "        return self.usage in [254, 255]", "        return self.usage in self._PROTECTED", more=[(FL, "    def __bool__(self):\n        return", "    _PROTECTED = (254, 255)\n\n    def __bool__(self):\n        return")])
 T('C16', 'twin-s2k-bool-ge', FL, "        return self.usage in [254, 255]", "        return self.usage >= 254")
